@@ -23,7 +23,7 @@ CONSTANTS
   MaxPings = 2
   PingCacheTimeout = 1
   BootTimeout = 2
-  MaxTime = 3
+  MaxTime = 2
   TickLens = {1}
   IntroOwn = FALSE
   Dev = {}
@@ -40,3 +40,4 @@ PROPERTY WalkTargets
 PROPERTY ForgetOnlyUnreachable
 PROPERTY WalkSpacing
 PROPERTY EdgeGrowsVerified
+PROPERTY PongCounted
